@@ -10,7 +10,7 @@ cd $wt && git checkout -q -- . && git clean -fdq
 git apply $src/patch.diff || { echo "PATCH DOES NOT APPLY in worktree"; exit 2; }
 go build ./... || { echo "BUILD FAILS"; git checkout -q -- .; exit 2; }
 /verif/tools/runtests.sh $wt > /tmp/seed_suite.txt 2>&1; suite=$?
-cp $src/demo_test.go.txt $wt/$dest
+mkdir -p $(dirname $wt/$dest); cp $src/demo_test.go.txt $wt/$dest
 pkgdir=$(dirname $dest)
 (cd $wt && go test $RACEFLAG -vet=off -count=1 ./$pkgdir -run 'Demo|demo|Seed|C[0-9]' > /tmp/seed_demo_with.txt 2>&1); with=$?
 git apply -R $src/patch.diff
